@@ -69,11 +69,12 @@ def IsFirstAbove (s : State χ κ) (x : χ) (r : Nat) : Prop :=
   ∃ pre post, traversal s = pre ++ r :: post ∧ (∃ xr, xOf s.trials r = some xr ∧ x < xr) ∧
     ∀ a ∈ pre, ∀ xa, xOf s.trials a = some xa → xa ≤ x
 
-/-- Precondition of an insertion of coordinate `x` with hint `hint`: `x` is strictly right of the
-first item (the Python code would raise otherwise), some stored coordinate is `> x`, and the hint,
-when given, is the first item in traversal order with coordinate `> x`. -/
+/-- Precondition of an insertion of coordinate `x` with hint `hint`: `x` is not left of the first
+item (`x_first ≤ x`; for `x < x_first` the Python code raises — the strict `x_first < x` of the
+informal statement is a special case), some stored coordinate is `> x`, and the hint, when given, is
+the first item in traversal order with coordinate `> x`. -/
 def InsertOk (s : State χ κ) (x : χ) (hint : Option Nat) : Prop :=
-  (∃ f xf, s.first = some f ∧ xOf s.trials f = some xf ∧ xf < x) ∧
+  (∃ f xf, s.first = some f ∧ xOf s.trials f = some xf ∧ xf ≤ x) ∧
   (∃ j xj, xOf s.trials j = some xj ∧ x < xj) ∧
   (hint = none ∨ ∃ r, hint = some r ∧ IsFirstAbove s x r)
 
@@ -159,6 +160,34 @@ theorem C19_WF_spec {s : State χ κ} (h : WF s) :
     obtain ⟨ia, hia, -, hra⟩ := hlink hs.2.1
     exact ⟨ia, hia, hra⟩
 
+omit [LinearOrder κ] in
+/-- **C19_WF_iff.** `WF` is EXACTLY the conjunction of the readable clauses: the first pointer is
+the head of the traversal; the traversal is a permutation of all stored ids; consecutive ids are
+linked both ways; the head has `left = none`; the last item has `right = none`; the coordinates
+along the traversal are non-decreasing. -/
+theorem C19_WF_iff (s : State χ κ) :
+    WF s ↔
+      (∃ f, s.first = some f ∧ (traversal s).head? = some f) ∧
+      (traversal s).Perm (List.range s.trials.size) ∧
+      (∀ A a b B, traversal s = A ++ a :: b :: B →
+        ∃ ia ib, s.trials[a]? = some ia ∧ s.trials[b]? = some ib ∧
+          ia.right = some b ∧ ib.left = some a) ∧
+      (∀ a B, traversal s = a :: B → ∃ ia, s.trials[a]? = some ia ∧ ia.left = none) ∧
+      (∀ A a, traversal s = A ++ [a] → ∃ ia, s.trials[a]? = some ia ∧ ia.right = none) ∧
+      (coordsOf s.trials (traversal s)).Pairwise (· ≤ ·) := by
+  constructor
+  · intro h
+    obtain ⟨⟨f, h1, h2, -⟩, h3, -, h4, h5, h6, h7, -⟩ := C19_WF_spec h
+    exact ⟨⟨f, h1, h2⟩, h3, h4, h5, h6, h7⟩
+  · rintro ⟨⟨f, h1, h2⟩, h3, h4, h5, h6, h7⟩
+    refine ⟨by rw [h1, h2], ?_, h3, Seg_of_clauses _ none none h4 h5 h6, ?_⟩
+    · intro hnil; rw [hnil] at h2; cases h2
+    · unfold coordsOf at h7
+      rw [List.pairwise_filterMap] at h7
+      refine List.Pairwise.imp ?_ h7
+      intro a b hab xa xb hxa hxb
+      exact hab xa hxa xb hxb
+
 /-! ## One step of the state machine (auxiliary) -/
 
 omit [LinearOrder κ] in
@@ -177,8 +206,8 @@ theorem Inv.setq_sublist {s : State χ κ} (h : Inv s) (glob : Bool) {q' : List 
       h.maxlen_pos⟩
 
 theorem Inv.clear {s : State χ κ} (h : Inv s) : Inv (clearQueue s) :=
-  ⟨(WF_congr (s := s) (s' := clearQueue s) rfl rfl).2 h.wf, QSorted.nil, QSorted.nil, by simp [clearQueue], by simp [clearQueue],
-    h.maxlen_pos⟩
+  ⟨(WF_congr (s := s) (s' := clearQueue s) rfl rfl).2 h.wf, QSorted.nil, QSorted.nil,
+    by simp [clearQueue], by simp [clearQueue], h.maxlen_pos⟩
 
 theorem Inv.refill {s : State χ κ} (h : Inv s) : Inv (refill leB s) := by
   have hwf : WF (SD.refill leB s) := (WF_congr (refill_trials s) (refill_first s)).2 h.wf
@@ -414,7 +443,7 @@ theorem C19_find_covering {s : State χ κ} (h : WF s) (x : χ) (r : Nat)
     exact hpre l (by rw [hApre]; simp) xl hxl
 
 /-- **C19_insert_ok / C19_wf_preserved.** If the container is well-formed, the new coordinate is
-strictly right of the first item, some stored coordinate is larger, and the hint (when given) is the
+not left of the first item, some stored coordinate is larger, and the hint (when given) is the
 first item in traversal order with a larger coordinate, then `insert` succeeds, the result is
 well-formed, has one more item, and its traversal is the old one with the new id (= old item count)
 placed immediately before that item.  Without a hint `insert` finds the item itself. -/
@@ -448,6 +477,15 @@ theorem C19_insert_ok {s : State χ κ} (h : WF s) (new : Item χ κ)
     by rw [ht]; simp, (isFirstAbove_iff_find h new.x r).2 hfind, ?_, ?_⟩
   · rw [hrep.traversal_eq]; simp
   · rw [htr]; exact storedXs_insTrials _ _ _ _ hl hr hlr
+
+/-- **C19_wf_preserved.** Whenever a precondition-respecting `insert` returns a state, that state
+is well-formed (corollary of `C19_insert_ok`). -/
+theorem C19_wf_preserved {s s' : State χ κ} (h : WF s) (new : Item χ κ) (hint : Option Nat)
+    (hok : InsertOk s new.x hint) (hins : insert ltB leB s new hint = .ok s') : WF s' := by
+  obtain ⟨s'', -, -, -, hins', hwf, -⟩ := C19_insert_ok h new hint hok
+  rw [hins] at hins'
+  cases hins'
+  exact hwf
 
 omit [LinearOrder χ] [LinearOrder κ] in
 theorem insertedXs_cons (op : Op χ κ) (ops : List (Op χ κ)) :
@@ -488,12 +526,15 @@ clears, refills, best-interval requests, characteristic updates) satisfying the 
 preconditions, started from the initial container: the container is well-formed (links consistent,
 see `C19_WF_spec`), the coordinates along the traversal are sorted and are exactly the inserted
 coordinates (strictly increasing if no coordinate was inserted twice), and
-`traversal.length = trials.size = 2 + number of inserts`. -/
+`traversal.length = trials.size = 2 + number of inserts`.  The invariant `Inv s` in the conclusion
+supplies all hypotheses of the request theorems `C19_pop_max`, `C19_dual_pop_current`,
+`C19_refill_spec`, `C19_find_spec`, `C19_insert_ok` in every reachable state.
+(Non-vacuity: `Example.valid` below.) -/
 theorem C19_traversal_sorted (m : Option Nat) (d : Bool) (l r : Item χ κ) (hl : l.left = none)
     (hr : r.right = none) (hx : l.x ≤ r.x) (hm : m ≠ some 0) (ops : List (Op χ κ))
     (hv : ValidSeq (init m d l r) ops) :
     let s := run (init m d l r) ops
-    Inv s ∧
+    Inv s ∧ s.maxlen = m ∧ s.dual = d ∧
     (coordsOf s.trials (traversal s)).Pairwise (· ≤ ·) ∧
     (coordsOf s.trials (traversal s)).Perm (l.x :: r.x :: insertedXs ops) ∧
     ((l.x :: r.x :: insertedXs ops).Nodup → (coordsOf s.trials (traversal s)).Pairwise (· < ·)) ∧
@@ -501,11 +542,11 @@ theorem C19_traversal_sorted (m : Option Nat) (d : Bool) (l r : Item χ κ) (hl 
     s.trials.size = 2 + (insertedXs ops).length := by
   intro s
   obtain ⟨hinv0, -, hxs0, -, -⟩ := C19_init_inv m d l r hl hr hx hm
-  obtain ⟨hinv, -, -, hxs⟩ := C19_run_inv hinv0 ops hv
+  obtain ⟨hinv, hmax, hdual, hxs⟩ := C19_run_inv hinv0 ops hv
   rw [hxs0] at hxs
   have hxs' : storedXs s.trials = l.x :: r.x :: insertedXs ops := hxs
   have hwf : Rep s.trials s.first (traversal s) := hinv.wf
-  refine ⟨hinv, hwf.coords_sorted, ?_, ?_, hwf.length_eq, ?_⟩
+  refine ⟨hinv, hmax, hdual, hwf.coords_sorted, ?_, ?_, hwf.length_eq, ?_⟩
   · rw [← hxs']; exact hwf.coords_perm
   · intro hnd
     exact hwf.coords_strict (by rw [hxs']; exact hnd)
@@ -592,21 +633,26 @@ theorem C19_refill_spec {s : State χ κ} (h : WF s) :
     (refill leB s).trials = s.trials ∧ (refill leB s).first = s.first ∧
     QSorted (refill leB s).gq ∧
     (refill leB s).gq = qinsertAll s.maxlen (entriesOf Item.globalR s.trials (traversal s)) [] ∧
+    (refill leB s).lq = (if s.dual then
+        qinsertAll s.maxlen (entriesOf Item.localR s.trials (traversal s)) [] else []) ∧
     (∀ e ∈ (refill leB s).gq, ∃ it, s.trials[e.2]? = some it ∧ e.1 = it.globalR) ∧
-    (s.maxlen = none → ((refill leB s).gq.map Prod.snd).Perm (List.range s.trials.size)) := by
+    (s.maxlen = none →
+      (refill leB s).gq.Perm (entriesOf Item.globalR s.trials (traversal s)) ∧
+      ((refill leB s).gq.map Prod.snd).Perm (List.range s.trials.size)) := by
   have hgq : (refill leB s).gq =
       qinsertAll s.maxlen (entriesOf Item.globalR s.trials (traversal s)) [] := by
     rw [refill_eq]
-  refine ⟨refill_trials s, refill_first s, ?_, hgq, ?_, ?_⟩
+  refine ⟨refill_trials s, refill_first s, ?_, hgq, by rw [refill_eq], ?_, ?_⟩
   · rw [hgq]; exact qinsertAll_sorted _ _ QSorted.nil
   · intro e he
     rw [hgq] at he
     exact (mem_entriesOf.1 (mem_of_mem_qinsertAll_nil he)).2
   · intro hm
     rw [hgq, hm]
-    have hp := (qsortAll_perm (entriesOf Item.globalR s.trials (traversal s))).map Prod.snd
+    have hp0 := qsortAll_perm (entriesOf Item.globalR s.trials (traversal s))
+    have hp := hp0.map Prod.snd
     rw [entriesOf_map_snd (fun a ha => (Rep.mem_iff h).1 ha)] at hp
-    exact hp.trans (Rep.perm h)
+    exact ⟨hp0, hp.trans (Rep.perm h)⟩
 
 /-- **C19_pop_max.** The base-class best-interval request on a sorted queue returns `(i, k)` where
 `k` is `≥` every key of the queue it popped from, and that entry is removed.  If the queue was empty
@@ -698,7 +744,7 @@ def insertOkB (s : State χ κ) (x : χ) (hint : Option Nat) : Bool :=
   (match s.first with
    | some f =>
      match xOf s.trials f with
-     | some xf => decide (xf < x)
+     | some xf => decide (xf ≤ x)
      | none => false
    | none => false) &&
   (List.range s.trials.size).any (gtB s.trials x) &&
@@ -794,6 +840,21 @@ example := C19_traversal_sorted none true l0 r0 rfl rfl (by decide) (by simp) op
 example : WF s1 ∧ InsertOk s1 30 (some 2) ∧ InsertOk s1 30 none ∧ find ltB s1 30 = some 2 :=
   ⟨inv1.wf, insertOk_of_B inv1.wf (by decide), insertOk_of_B inv1.wf (by decide), by decide⟩
 
+example := C19_find_covering inv1.wf 30 2 (by decide)
+example := C19_refill_spec inv1.wf
+
+/-- a WRONG hint (item 1, coordinate 100, although item 2 with coordinate 50 is the first one right
+of 30) is trusted blindly: the insertion succeeds, the links stay consistent, but the traversal is
+no longer sorted (this is why `InsertOk` demands a correct hint). -/
+example : (match insert ltB leB s1 { x := 30, globalR := 0, localR := 0 } (some 1) with
+    | .ok s' => coordsOf s'.trials (traversal s')
+    | .error _ => []) = [0, 10, 25, 50, 60, 75, 30, 100] := by decide
+
+/-- an insertion right of the last item raises (`find` returns `None`) -/
+example : (match insert ltB leB s1 { x := 200, globalR := 0, localR := 0 } none with
+    | .ok _ => false
+    | .error e => e == .attributeError) = true := by decide
+
 /-- the global queue: equal keys in insertion order (hinted inserts re-queue the right neighbour) -/
 example : s1.gq = [(7, 5), (7, 6), (5, 2), (5, 3), (5, 2), (5, 4), (5, 4)] := by decide
 
@@ -832,6 +893,10 @@ example : popView (popMaxGlobal leB (clearQueue s2)) = some (6, 7, [(5, 3), (5, 
 /-- bounded queue, ties: of the three entries with key 5 the two OLDEST are retained -/
 example : qinsertAll (some 3) [((5 : Nat), "a"), (5, "b"), (7, "c"), (5, "d"), (2, "e")] []
     = [(7, "c"), (5, "a"), (5, "b")] := by decide
+
+/-- hypotheses of `C19_qinsert_evict`: a full sorted queue -/
+example := C19_qinsert_evict 3 5 "new" (q := [((7 : Nat), "c"), (5, "a"), (5, "b")])
+  (by unfold QSorted; decide) (by decide)
 
 /-- `C19_qinsert_stable` on a sorted queue with equal keys -/
 example : QSorted [((7 : Nat), "c"), (5, "a"), (5, "b"), (2, "e")] ∧
